@@ -177,7 +177,7 @@ def whole_rule(rep, mod, fname, width, poly, reflected, seed_name, data_name, le
                state_bits=None, lengths=(0, 1, 2, 3, 4, 5, 7, 8, 9)):
     """R-CRCWHOLE: for fixed small lengths the whole function, evaluated in the GF(2) domain with symbolic seed and
     symbolic data bytes, equals the definition folded over the bytes; control flow must not depend on the data"""
-    from gf2 import FuncEval, DataDependentBranch, TableNotAffine
+    from gf2 import FuncEval, DataDependentBranch, TableNotAffine, ReadOutside
     f = mod.fn(fname)
     where = '%s:%d' % (f.file, f.line)
     names = [p['name'] for p in f.params]
@@ -193,8 +193,13 @@ def whole_rule(rep, mod, fname, width, poly, reflected, seed_name, data_name, le
             else:
                 args.append(BV.sym(p['ty'].get('bits', 8), 'x_' + p['name']))
         ev = FuncEval(f, mod, args)
+        ev.read_limit = L
         try:
             out = ev.run()
+        except ReadOutside as e:
+            rep.inst('R-CRCWHOLE', fname, 'length=%d' % L, False, e.inst.where(),
+                     'with length %d the routine reads %d byte(s) at offset %d of the data' % (L, e.nb, e.off))
+            continue
         except DataDependentBranch as e:
             rep.inst('R-CRCWHOLE', fname, 'length=%d' % L, False, e.inst.where(),
                      'with length %d the control flow depends on the data or seed value (branch at %s): some inputs '
